@@ -82,6 +82,22 @@ CHECKS = {
           'under contract; the geier1997/shadmehri2012 modules are not covered; 60 known findings in the two fsdt bcn modules; the compiled extensions cannot be rebuilt '
           'here, so numeric replays show the installed binary'),
     technique='contracts + symbolic execution of the extracted .pyx (generic-iteration schema, local path exploration); trigonometric normal form; formal differentiation; z3 for index cases and divisors'),
+ 'C17': dict(
+    category='proof',
+    text=('cffint, cfk0L, cfkG, cfkLL of the 12 shell models that advertise non-linear statics (clpt_donnell_bc1-4, clpt_sanders_bc1-4, iso_clpt_donnell_bc2/3, '
+          'fsdt_donnell_bc1/bcn) are extracted from the .pyx text and executed symbolically at one generic integration point (symbolic point, weight, state, '
+          'imperfection slopes, series orders; scratch buffers as functions of their index); the counters of the integrand functions are tied to rows/columns of '
+          'calc_k0L/calc_kG/calc_kLL by equality of their control skeletons.  With U = 1/2 eps^T F eps r, eps = E0(c) + EL(slopes): cffint[A] == alpha (dU/dc_A - e_A^T F E0 r) '
+          'for every amplitude, and (k0L + k0L^T + sym kLL + sym kG)[A,B] == alpha (d2U/dc_A dc_B - e_A^T F e_B r) for every pair and index case, hence the tangent '
+          'is symmetric and the Jacobian of k0 c + fint_NL for every rule and grid; fint_NL vanishes at c = 0 and is at least quadratic for the perfect shell.  '
+          'Premises proved on the commons text: cfwx/cfwt/cfv are the state sums of the cfuvw field, cfstrain_* is E0 + EL, cfN = F eps (membrane rows).  '
+          'ConeCyl._calc_NL_matrices / calc_fint compose and pass the arguments as assumed (symbolic execution, 4 model kinds); integratev hands every point to '
+          'the integrand exactly once for every thread count (z3) and both point generators return betas = 1.'),
+    design_ref='DESIGN.md section 10.6 (C17)',
+    note=('integrand level: the statement about the integrals follows because both sides use the same points and weights; floating-point summation order across '
+          'threads is not modelled (A1); convergence of Newton iterations is not part of the property; 48 known findings: cffint and cfstrain_donnell of the two fsdt '
+          'models use another amplitude layout than the matrices; numeric replays (kT against central differences of calc_fint) run on the installed binary'),
+    technique='contracts + symbolic execution of the extracted .pyx (generic-iteration schema with accumulators, canonical sum atoms); formal differentiation of the energy; skeleton equality for counters; z3 LIA'),
  'C18': dict(
     category='proof',
     text=('ConeCyl._rebuild is executed symbolically for the five admissible input subsets (cone and cylinder): H = L cos(alpha), r1 = r2 + L sin(alpha), inputs '
